@@ -1837,3 +1837,163 @@ def prim_cmp_ops(m, mt, args, tys, dty):
     x, y = deref(args[0]), deref(args[1])
     op = mt.group(3)
     return {'eq': x == y, 'ne': x != y, 'lt': x < y, 'le': x <= y, 'gt': x > y, 'ge': x >= y}[op]
+
+
+@summary(r'(std::rt::begin_panic::<.*>|core::panicking::panic|core::panicking::panic_fmt|std::rt::panic_fmt|core::panicking::panic_display::<.*>|core::panicking::unreachable_display::<.*>|core::panicking::panic_explicit|core::option::expect_failed|core::result::unwrap_failed|core::option::unwrap_failed|core::panicking::assert_failed::<.*>)')
+def explicit_panic(m, mt, args, tys, dty):
+    msg = ''
+    if args:
+        try:
+            v = deref(args[0])
+            msg = v if isinstance(v, str) else show(str_items(v))
+        except Exception:
+            msg = ''
+    raise Panic('Explicit', '%s: %s' % (mt.group(1).split('::<')[0], msg))
+
+
+# ------------------------------------------------------------------ floats: concrete python floats, or FloatV = symbolic IEEE bit pattern
+
+FLOAT_FMT = {'f32': (8, 23, '<f', '<I'), 'f64': (11, 52, '<d', '<Q')}
+
+
+class FloatV:
+    """symbolic float: bits = sign*2^(e+m) + exp*2^m + frac ; sign/exp/frac are python ints or z3 Int terms"""
+    def __init__(self, ty, sign, exp, frac):
+        self.ty, self.sign, self.exp, self.frac = ty, sign, exp, frac
+
+    def bits(self):
+        e, mbits = FLOAT_FMT[self.ty][:2]
+        return self.sign * 2 ** (e + mbits) + self.exp * 2 ** mbits + self.frac
+
+    def __repr__(self):
+        return 'Float<%s s=%s e=%s f=%s>' % (self.ty, self.sign, self.exp, self.frac)
+
+
+def float_bits(ty, v):
+    if isinstance(v, FloatV):
+        return v.bits()
+    fmt = FLOAT_FMT[ty]
+    return struct.unpack(fmt[3], struct.pack(fmt[2], v))[0]
+
+
+def float_parts(ty, v):
+    if isinstance(v, FloatV):
+        return v.sign, v.exp, v.frac
+    e, mbits = FLOAT_FMT[ty][:2]
+    b = float_bits(ty, v)
+    return b >> (e + mbits), (b >> mbits) & (2 ** e - 1), b & (2 ** mbits - 1)
+
+
+def float_category(m, ty, v):
+    sign, exp, frac = float_parts(ty, v)
+    e = FLOAT_FMT[ty][0]
+    if is_sym(exp):
+        exp = m.concretize(exp)
+    if exp == 2 ** e - 1:
+        return 'Infinite' if m.branch_bool(frac == 0) else 'Nan'
+    if exp == 0:
+        return 'Zero' if m.branch_bool(frac == 0) else 'Subnormal'
+    return 'Normal'
+
+
+@summary(r'core::(f32|f64)::<impl (?:f32|f64)>::to_bits')
+def float_to_bits(m, mt, args, tys, dty):
+    return float_bits(mt.group(1), deref(args[0]))
+
+
+@summary(r'core::(f32|f64)::<impl (?:f32|f64)>::from_bits')
+def float_from_bits(m, mt, args, tys, dty):
+    ty = mt.group(1)
+    b = args[0]
+    if is_sym(b):
+        raise Unsupported('from_bits of symbolic bits')
+    fmt = FLOAT_FMT[ty]
+    return struct.unpack(fmt[2], struct.pack(fmt[3], b))[0]
+
+
+@summary(r'core::(f32|f64)::<impl (?:f32|f64)>::classify')
+def float_classify(m, mt, args, tys, dty):
+    return mk_enum('FpCategory', float_category(m, mt.group(1), deref(args[0])))
+
+
+@summary(r'core::(f32|f64)::<impl (?:f32|f64)>::is_(normal|finite|nan|infinite|sign_negative|sign_positive)')
+def float_is(m, mt, args, tys, dty):
+    ty, what = mt.group(1), mt.group(2)
+    v = deref(args[0])
+    if what in ('sign_negative', 'sign_positive'):
+        s = float_parts(ty, v)[0]
+        return (s == 1) if what == 'sign_negative' else (s == 0)
+    c = float_category(m, ty, v)
+    return {'normal': c == 'Normal', 'finite': c not in ('Nan', 'Infinite'), 'nan': c == 'Nan', 'infinite': c == 'Infinite'}[what]
+
+
+@summary(r'<(f32|f64) as num_traits::One>::is_one')
+def float_is_one(m, mt, args, tys, dty):
+    return float_eq(m, mt.group(1), deref(args[0]), 1.0)
+
+
+@summary(r'<(f32|f64) as num_traits::Zero>::is_zero')
+def float_is_zero(m, mt, args, tys, dty):
+    return float_eq(m, mt.group(1), deref(args[0]), 0.0)
+
+
+@summary(r'<(f32|f64) as std::ops::Neg>::neg')
+def float_neg(m, mt, args, tys, dty):
+    v = args[0]
+    if isinstance(v, FloatV):
+        return FloatV(v.ty, 1 - v.sign, v.exp, v.frac)
+    return -v
+
+
+@summary(r'<(f32|f64) as Clone>::clone')
+def float_clone(m, mt, args, tys, dty):
+    return deref(args[0])
+
+
+def float_eq(m, ty, a, b):
+    """IEEE == between a (possibly FloatV) and b (concrete float)"""
+    if not isinstance(a, FloatV) and not isinstance(b, FloatV):
+        return a == b
+    if isinstance(b, FloatV) and not isinstance(a, FloatV):
+        a, b = b, a
+    if isinstance(b, FloatV):
+        raise Unsupported('comparison of two symbolic floats')
+    if b != b:
+        return False
+    bs, be, bf = float_parts(ty, b)
+    if b == 0.0:
+        return z3.And(a.exp == 0, a.frac == 0) if (is_sym(a.exp) or is_sym(a.frac)) else (a.exp == 0 and a.frac == 0)
+    conds = [a.sign == bs, a.exp == be, a.frac == bf]
+    if any(c is False for c in conds):
+        return False
+    sym = [c for c in conds if is_sym(c)]
+    return z3.And(sym) if sym else True
+
+
+@summary(r'(?:num_bigint::)?BigUint::from_slice')
+def biguint_from_slice(m, mt, args, tys, dty):
+    v = deref(args[0])
+    items = v if isinstance(v, list) else [as_slice(v).get(i) for i in range(len(as_slice(v)))]
+    return sum(w * 2 ** (32 * i) for i, w in enumerate(items))
+
+
+@summary(r'core::num::<impl (%s)>::trailing_zeros#float-aware' % INT)
+def _unused_tz(m, mt, args, tys, dty):
+    pass
+
+
+def trailing_zeros_fork(m, x, bits):
+    """number of trailing zero bits of a (possibly symbolic) non-negative integer, by forking on the count"""
+    if not is_sym(x):
+        return bits if x == 0 else (x & -x).bit_length() - 1
+    ts = [m.fresh('tzq') for _ in range(bits)]
+    k = m.choose_n(bits + 1, lambda k: (x == 0) if k == bits else z3.And(x == (2 * ts[k] + 1) * 2 ** k, ts[k] >= 0))
+    return k
+
+
+for _i, (_n, _rx, _fn) in enumerate(SUMMARIES):
+    if _n == 'int_trailing_zeros':
+        def _tz(m, mt, args, tys, dty):
+            bits = {'u8': 8, 'u16': 16, 'u32': 32, 'u64': 64, 'u128': 128, 'usize': 64}[mt.group(1)]
+            return trailing_zeros_fork(m, args[0], bits)
+        SUMMARIES[_i] = (_n, _rx, _tz)
